@@ -1,11 +1,155 @@
 package main
 
-// extras.go — positive-control overlay and thorough-tier extras.
+// extras.go — thorough-tier extras: wider OAE bounds (in the rules) and the replay of the
+// property's confirmed seeded changes (/verif/seeded/<prop>-<n>/patch.diff) as positive controls.
 
-// controlOverlay returns synthetic source files (never written to disk) that are type-checked together
-// with the repository: tiny positive examples for rules whose expected violation count is zero.
-func controlOverlay(repo string) map[string][]byte {
-	return nil
+import (
+	"encoding/json"
+	"fmt"
+	"io"
+	"os"
+	"os/exec"
+	"path/filepath"
+	"sort"
+	"strings"
+)
+
+// controlOverlay is kept for compatibility with the first design (synthetic overlay controls were
+// replaced by the seeded-change replay below).
+func controlOverlay(repo string) map[string][]byte { return nil }
+
+var outDir = "/verif"
+
+// runRules evaluates a property's rules on a world and returns the context.
+func runRules(w *World, p *Property, tier string) *Ctx {
+	c := newCtx(w, p.ID, tier)
+	for _, r := range p.Rules {
+		if r.ThoroughOnly && tier != "thorough" {
+			continue
+		}
+		c.Rule(r.ID, r.Text)
+		rr := r
+		c.run(r.ID, func() { rr.Run(c, rr.ID) })
+	}
+	return c
 }
 
-func thoroughExtras(c *Ctx, p *Property) {}
+func failing(c *Ctx) []string {
+	var out []string
+	for _, o := range c.Obs {
+		if o.Verdict == Violated || o.Verdict == Undecided {
+			out = append(out, o.Key)
+		}
+	}
+	sort.Strings(out)
+	return out
+}
+
+func thoroughExtras(c *Ctx, p *Property) {
+	// (1) "cover what the build covers": the repository has no build tags and does not build for 32-bit
+	// targets (bytedance/sonic refuses GOARCH=386), so there is exactly one configuration to analyse.
+	// (2) positive controls: replay the property's seeded changes
+	c.Rule(p.ID+".X2", "thorough: every confirmed seeded change of this property (that still applies) makes this check fail — the check is not vacuous")
+	dirs, _ := filepath.Glob(filepath.Join(outDir, "seeded", p.ID+"-*"))
+	sort.Strings(dirs)
+	for _, d := range dirs {
+		id := filepath.Base(d)
+		var meta struct {
+			Detection struct {
+				Own string `json:"own_property_check"`
+			} `json:"detection"`
+		}
+		if b, err := os.ReadFile(filepath.Join(d, "meta.json")); err == nil {
+			_ = json.Unmarshal(b, &meta)
+		}
+		if meta.Detection.Own != "caught" {
+			c.OKTrivial(p.ID+".X2", "seed:"+id, 0, "recorded as not detectable by this rule set (see DESIGN.md §5); not used as a control")
+			continue
+		}
+		tmp, err := os.MkdirTemp("", "dcpverif-control-")
+		if err != nil {
+			c.Undecided(p.ID+".X2", "seed:"+id, 0, "cannot create scratch directory: %v", err)
+			continue
+		}
+		func() {
+			defer os.RemoveAll(tmp)
+			dst := filepath.Join(tmp, "repo")
+			if err := copyTree(c.W.Repo, dst); err != nil {
+				c.Undecided(p.ID+".X2", "seed:"+id, 0, "cannot copy the repository: %v", err)
+				return
+			}
+			cmd := exec.Command("patch", "-p1", "-s", "-f", "-i", filepath.Join(d, "patch.diff"))
+			cmd.Dir = dst
+			if out, err := cmd.CombinedOutput(); err != nil {
+				c.OKTrivial(p.ID+".X2", "seed:"+id, 0, "patch does not apply to the current tree (skipped): %s", strings.TrimSpace(firstLine(string(out))))
+				return
+			}
+			w2, err := loadWorld(dst, nil)
+			if err != nil {
+				c.OKTrivial(p.ID+".X2", "seed:"+id, 0, "patched tree does not type-check together with the current tree's other edits (skipped)")
+				return
+			}
+			c2 := runRules(w2, p, "quick")
+			// obligations failing on the seeded tree that do not already fail on the current tree
+			cur := map[string]bool{}
+			for _, k := range failing(c) {
+				cur[k] = true
+			}
+			var fresh []string
+			for _, k := range failing(c2) {
+				if !cur[k] {
+					fresh = append(fresh, k)
+				}
+			}
+			c.States += c2.States
+			if len(fresh) > 0 {
+				c.OK(p.ID+".X2", "seed:"+id, 0, "control fires: %s", strings.Join(fresh, " ; "))
+			} else {
+				c.Undecided(p.ID+".X2", "seed:"+id, 0, "a change known to break this property is no longer reported — the rule set has become vacuous for it")
+			}
+		}()
+	}
+}
+
+func firstLine(s string) string {
+	if i := strings.IndexByte(s, '\n'); i >= 0 {
+		return s[:i]
+	}
+	return s
+}
+
+func copyTree(src, dst string) error {
+	return filepath.Walk(src, func(path string, info os.FileInfo, err error) error {
+		if err != nil {
+			return err
+		}
+		rel, _ := filepath.Rel(src, path)
+		if rel == ".git" || strings.HasPrefix(rel, ".git"+string(filepath.Separator)) {
+			if info.IsDir() {
+				return filepath.SkipDir
+			}
+			return nil
+		}
+		target := filepath.Join(dst, rel)
+		if info.IsDir() {
+			return os.MkdirAll(target, 0o755)
+		}
+		if !info.Mode().IsRegular() {
+			return nil
+		}
+		in, err := os.Open(path)
+		if err != nil {
+			return err
+		}
+		defer in.Close()
+		out, err := os.Create(target)
+		if err != nil {
+			return err
+		}
+		defer out.Close()
+		_, err = io.Copy(out, in)
+		return err
+	})
+}
+
+var _ = fmt.Sprint
